@@ -135,12 +135,6 @@ func (r *Report) finish(id string, cfg *PropCfg, writeEvidence bool) int {
 	if err != nil {
 		return die(2, id, "known_findings.json: %v", err)
 	}
-	// vacuity guards
-	for _, c := range r.Covers {
-		if c.Result == "error" {
-			return die(2, id, "vacuity guard failed: %s is unsatisfiable (contradictory precondition, invariant or stub)", c.Name)
-		}
-	}
 	var violations, knownHit []string
 	discharged, proofObl, boundedObl := 0, 0, 0
 	var samples []map[string]interface{}
@@ -195,6 +189,14 @@ func (r *Report) finish(id string, cfg *PropCfg, writeEvidence bool) int {
 		}
 		line := fmt.Sprintf("VIOLATION property=%s replay=%s obligation=%s result=%s%s%s", id, dir, o.Name, o.Result, note, suffix)
 		violations = append(violations, line)
+	}
+	// vacuity guards: only when nothing was refuted (a refuted obligation makes its continuation unreachable)
+	if len(violations) == 0 {
+		for _, c := range r.Covers {
+			if c.Result == "error" {
+				return die(2, id, "vacuity guard failed: %s is unsatisfiable (contradictory precondition, invariant or stub)", c.Name)
+			}
+		}
 	}
 	// an "open" known finding whose obligation no longer exists or is discharged is simply not printed.
 	ev := map[string]interface{}{
